@@ -81,7 +81,7 @@ TParse ==
         /\ dead' = (p.status # "ok")
         /\ (p.status \in {"ok", "fail"} => (CbMatch(p.cblog, Ev.cb) /\ SeqSet(p.freed) = SeqSet(Ev.freed)))
         /\ (p.status = "ok" => (Ev.ret = 0 /\ SecMatch(ObsSec(RootOf(p)), Ev.obs)
-                                /\ (p.depr \/ Ev.ndiag = 0)))
+                                /\ Ev.ndiag = p.ndep))
         (* a deprecation notice may precede the error: then the first diagnostic is not the error's *)
         /\ (p.status = "fail" => (Ev.ret = 1 /\ Ev.ndiag >= 1
                                   /\ (p.depr \/ (Ev.dfile = "buf" /\ Ev.dline = p.diags[1].line))))
